@@ -88,6 +88,17 @@ GridClauses(e) ==
                                 /\ { TRect(u) : u \in after } = GridSet(die, e.nr, e.nc)),
     others_untouched |-> (e.ok = 1 => e.block = <<>> /\ e.fixed = <<>>) ]
 
+\* A request outside the quantifier (limit <= sqrt 2, n <= 0) that the code refuses.  Nothing is judged on it; the die is
+\* still a die, so the NEXT admissible request is judged against the regions it had before (a refused request that
+\* leaves the object half-modified shows there; the change itself is reported as drift).  If the code serves the request
+\* instead of refusing it, the regions observed afterwards become the current ones.
+Refused(e) == /\ st = "accepted"
+              /\ fails' = fails
+              /\ drift' = IF e.raised = 1 /\ SeqToSet(e.refinable) # refinable
+                          THEN drift \cup {<<l, "refused_request_changed_the_die">>} ELSE drift
+              /\ refinable' = IF e.raised = 1 THEN refinable ELSE SeqToSet(e.refinable)
+              /\ UNCHANGED <<st, blocked, fixedr>>
+
 Refine(e) == /\ st = "accepted"
              /\ LET cl == IF e.op = "split" THEN SplitClauses(e) ELSE GridClauses(e) IN
                   fails' = fails \cup { <<l, k>> : k \in Bad(cl) }
@@ -101,6 +112,7 @@ Refine(e) == /\ st = "accepted"
 Step == /\ l <= Len(T.events)
         /\ LET e == T.events[l] IN
              IF e.op = "load" THEN Load(e)
+             ELSE IF st = "accepted" /\ e.op = "refused" THEN Refused(e)
              ELSE IF st = "accepted" THEN Refine(e)
              ELSE /\ fails' = fails \cup {<<l, "refine_on_rejected_die">>}
                   /\ UNCHANGED <<st, refinable, blocked, fixedr, drift>>
